@@ -155,7 +155,10 @@ def unit_sets(tier):
     if tier == "quick":
         yield "mem-family(2)", [(b, True) for b in families.mem_family(2)], cfgs()
         yield "tree(MEMALPHA,3)", [(b, True) for b in B.tree(mem_alpha, 3, max_need=3)], cfgs()
+        sw = list(families.sandwich_family())
+        yield "sandwich-family/2", [(b, True) for b in sw[::2]], [("-greedy",), ("-no-simplification", "-greedy")]
     else:
+        yield "sandwich-family", [(b, True) for b in families.sandwich_family()], cfgs()
         yield "mem-family(2)", [(b, True) for b in families.mem_family(2)], cfgs()
         yield "mem-family(3)", [(b, True) for b in families.mem_family(3)], cfgs()
         yield "tree(MEMALPHA,4)", [(b, True) for b in B.tree(mem_alpha, 4, max_need=3)], cfgs()
